@@ -1086,17 +1086,21 @@ class DiskRefsContainer(RefsContainer):
                 # reread cached refs from disk, while holding the lock
                 packed_refs = self.get_packed_refs().copy()
 
+                peeled_refs = dict(self._peeled_refs or {})
                 for ref, target in new_refs.items():
                     # sanity check
                     if ref == HEADREF:
                         raise ValueError("cannot pack HEAD")
 
+                    if ref in packed_refs and packed_refs[ref] != target:
+                        # The peeled value on file belongs to the old target
+                        peeled_refs.pop(ref, None)
                     if target is not None:
                         packed_refs[ref] = target
                     else:
                         packed_refs.pop(ref, None)
 
-                write_packed_refs(f, packed_refs, self._peeled_refs)
+                write_packed_refs(f, packed_refs, peeled_refs)
         finally:
             # Do not stat the path and associate that identity with the data
             # just written: another writer can replace packed-refs after the
@@ -1162,6 +1166,11 @@ class DiskRefsContainer(RefsContainer):
             or name not in self._packed_refs
         ):
             # No cache: no peeled refs were read, or this ref is loose
+            return None
+        loose = self.read_loose_ref(name)
+        if loose is not None and loose != self._packed_refs[name]:
+            # A loose ref shadows the packed entry: what packed-refs knows
+            # about peeling is about a value the ref no longer has.
             return None
         if name in self._peeled_refs:
             return self._peeled_refs[name]
